@@ -4,7 +4,7 @@ import math
 from . import common, harness, model, monitors, render, spec
 
 
-def families(run, rng, profile, variants, n_families, instrument=("g",), tag="fam"):
+def families(run, rng, profile, variants, n_families, instrument=("g",), tag="fam", keep_loaded=False):
     """Yield Bench objects for freshly generated families; accounts definitions, skeletons and
     coverage tuples in the evidence. Families that cannot be defined on this tree are counted
     (and make the run inconclusive above a threshold: the generator only emits declarations that
@@ -25,6 +25,8 @@ def families(run, rng, profile, variants, n_families, instrument=("g",), tag="fa
                 continue
             defined += 1
             run.count("families_defined")
+            if bench.local:
+                run.count("families_with_function_local_classes")
             run.count("classes_defined", len(fam["order"]) * len(variants))
             sk = common.stable_hash(spec.family_skeleton(fam))
             bench.skeleton = sk
@@ -34,7 +36,8 @@ def families(run, rng, profile, variants, n_families, instrument=("g",), tag="fa
             try:
                 yield bench
             finally:
-                bench.close()
+                if not keep_loaded:
+                    bench.close()
     finally:
         common.drop_scratch(d)
     if failed > max(3, 0.05 * (defined + failed)):
@@ -80,4 +83,4 @@ def observed_spans(roots, base):
 
 
 def src_of(bench, variant="g"):
-    return render.family_src(bench.fam, {variant: bench.loaded.variants.get(variant, {})})
+    return render.family_src(bench.fam, {variant: bench.loaded.variants.get(variant, {})}, local=getattr(bench, "local", False))
